@@ -31,7 +31,7 @@ CMP_COQ = {"=": "CEq", "<": "CLt", "<=": "CLe", ">": "CGt", ">=": "CGe"}
 # The others describe the code with repairs reverted and exist only for regression experiments on scratch copies:
 # "pre4" (766ce6b, 21e37aa, 79488b4, 596613e reverted), "ortab"/"njunc"/"nnull"/"ninfo" (pre4 + one of them),
 # "prequote" (also 60fb795 reverted), "legacy" (everything reverted).
-DEFAULT_VARIANT = "current"
+DEFAULT_VARIANT = "bestfix"   # /repo since b724954 (BestFitQuery without the trailing semicolon); "current" = the tree before it
 LABEL_FN = {"current": "case_labels", "bestfix": "case_labels_bestfix", "slicefix": "case_labels_slicefix", "bothfix": "case_labels_bothfix", "pre4": "case_labels_pre4", "prequote": "case_labels_prequote", "legacy": "case_labels_legacy",
             "ortab": "case_labels_ortab", "ninfo": "case_labels_ninfo", "nnull": "case_labels_nnull", "njunc": "case_labels_njunc"}
 
